@@ -356,6 +356,14 @@ class Builder:
         fixed = []
         for it in out:
             fixed.append(it)
+        # "declared up front": a test/section declaration that is directly followed by another declaration has no
+        # implementing definition of its own (the next declaration takes over the awaiting slot)
+        for i in range(len(fixed) - 1):
+            a, nx = fixed[i], fixed[i + 1]
+            if a.kind in ("ct_add_test", "ct_add_section") and nx.kind in ("ct_add_test", "ct_add_section") \
+                    and nx.doc is None and self.rng.random() < 0.3:
+                a.impl = None
+                a.between = []
         return self._fix_dangling(fixed, depth)
 
     def _fix_dangling(self, items, depth):
